@@ -99,6 +99,9 @@ func fixedBases() []struct {
 	orows = append(orows, "INSERT INTO `o_gen` (id, a, w) VALUES (1, 1, 'x')", "INSERT INTO `o_gen` (id, a, w) VALUES (2, NULL, NULL)",
 		"INSERT INTO `o_gen` (id, a, w) VALUES (3, -5, NULL)", "INSERT INTO `o_gen` (id, a, w) VALUES (4, 100, 'y')")
 	bs = append(bs, B{Schema{Tables: ots}, orows})
+	// 4: untouched columns with type names outside the catalogue (types5.go)
+	os4, or4 := oddTypeBase()
+	bs = append(bs, B{os4, or4})
 	return bs
 }
 
@@ -146,7 +149,7 @@ func runExhaust(ctx context.Context, w *out.W, tier, tmp, outDir, only string) {
 				}
 			}
 		}
-		if bi == 3 {
+		if bi >= 3 {
 			continue // the option base: every edit kind on each of its four tables, no pairs
 		}
 		// pairs: on the first two tables of each base (parent, child)
@@ -161,8 +164,21 @@ func runExhaust(ctx context.Context, w *out.W, tier, tmp, outDir, only string) {
 			}
 		}
 	}
+	// the foreign-key family (fkfam5.go): every case on every connection / tx combination
+	for _, c := range fkFamilyCases() {
+		if only == "" || only == c.ID {
+			cases = append(cases, c)
+		}
+	}
 	ms := []Mode{{Store: "mem", FK: true, Tx: "none"}, {Store: "mem", FK: true, Tx: "file"}, {Store: "mem", FK: false, Tx: "file"}}
 	runCases(ctx, w, cases, func(i int) []Mode {
+		if strings.HasPrefix(cases[i].ID, "f-") {
+			return []Mode{{Store: "mem", FK: true, Tx: "none"}, {Store: "mem", FK: true, Tx: "file"}, {Store: "mem", FK: false, Tx: "none"},
+				{Store: "mem", FK: false, Tx: "file"}, {Store: "file", FK: true, Tx: "file"}, {Store: "file", FK: true, Tx: "none"}}
+		}
+		if strings.HasPrefix(cases[i].ID, "x4-") {
+			return []Mode{{Store: "mem", FK: true, Tx: "none"}, {Store: "file", FK: false, Tx: "file"}}[i%2 : i%2+1]
+		}
 		if strings.HasPrefix(cases[i].ID, "x3-") {
 			if tier != "thorough" {
 				return []Mode{{Store: "mem", FK: true, Tx: "none"}, {Store: "file", FK: false, Tx: "file"}}
